@@ -228,6 +228,10 @@ func hExtension() extensions.Extension {
 func hHostileMsg(tag string, E int) *gtfsrt.FeedMessage {
 	ver := "2.0"
 	msg := &gtfsrt.FeedMessage{Header: &gtfsrt.FeedHeader{GtfsRealtimeVersion: &ver, Timestamp: vr.MaybeNil(tag+".ts.nil", vr.P(vr.U64(tag+".ts")))}}
+	if vr.Param("REQ", 0) == 1 {
+		msg.Header.GtfsRealtimeVersion = vr.MaybeNil(tag+".version.nil", &ver)
+		msg.Header = vr.MaybeNil(tag+".header.nil", msg.Header)
+	}
 	for e := 0; e < E; e++ {
 		t := func(c string) string { return vr.T(tag, ".e", e, ".", c) }
 		kind := vr.Param("KIND", 1)
@@ -236,6 +240,10 @@ func hHostileMsg(tag string, E int) *gtfsrt.FeedMessage {
 			id = vr.OneOf(t("id"), "e", "A27N#EL1", "lmm:alert:1", "#EL", "")
 		}
 		ent := &gtfsrt.FeedEntity{Id: &id}
+		if vr.Param("REQ", 0) == 1 {
+			// wire messages may lack fields the schema declares required (the decoder normally rejects them)
+			ent.Id = vr.MaybeNil(t("entity_id.nil"), &id)
+		}
 		td := &gtfsrt.TripDescriptor{TripId: vr.MaybeNil(t("trip_id.nil"), vr.P(hTripIDCell(t("trip_id")))), RouteId: vr.MaybeNil(t("route.nil"), vr.P(hOne(t("route"), "M", "x"))),
 			StartTime: vr.MaybeNil(t("start_time.nil"), vr.P(hOne(t("start_time"), "25:61:61", "", "aa:bb:cc"))), StartDate: vr.MaybeNil(t("start_date.nil"), vr.P(hOne(t("start_date"), "20241345", "")))}
 		if vr.Bool(t("nyct_trip")) {
